@@ -2551,6 +2551,8 @@ class LinearOperator(object):
         orig_dim = dim
         if dim < 0:
             dim = self.dim() + dim
+        if dim < 0:
+            raise ValueError("Invalid dim ({}) for LinearOperator of size {}".format(orig_dim, self.shape))
 
         # Case: summing across columns
         if dim == (self.dim() - 1):
